@@ -111,13 +111,15 @@ ALLCAPS = '0,1,2,3,4,5,8,16,32,40,70'
 def _c01(tier):
     a = '--fam track,copy,raw,zst,nodrop' + (' --caps ' + ALLCAPS if tier == 'thorough' else '')
     m = '--fam track,raw --caps 0,1,2,3,4 --max-steps 48'
-    return hist_jobs('C01', tier, a, a, engines=('map',), std=True, miri=(16, 150, 1500, {'map': m}))
+    raw = '--fam raw --caps 0,1,2,3,4,8 --no-forget'
+    return hist_jobs('C01', tier, a, a, engines=('map',), std=True, miri=(16, 150, 1500, {'map': m}), asan=(8, 2_000_000, {'map': raw}))
 
 
 def _c07(tier):
     a = '--fam track,copy,raw,zst,nodrop' + (' --caps ' + ALLCAPS if tier == 'thorough' else '')
     m = '--fam track,raw --caps 0,1,2,3,4 --max-steps 48'
-    return hist_jobs('C07', tier, a, a, engines=('set',), std=True, miri=(16, 150, 1500, {'set': m}))
+    raw = '--fam raw --caps 0,1,2,3,4,8 --no-forget'
+    return hist_jobs('C07', tier, a, a, engines=('set',), std=True, miri=(16, 150, 1500, {'set': m}), asan=(8, 2_000_000, {'set': raw}))
 
 
 def _mem_hist(prop, tier, fam='track,copy', miri_steps=(260, 2500), vg=True, asan=True, mirirel=False, engines=('map', 'set')):
@@ -132,15 +134,18 @@ def _mem_hist(prop, tier, fam='track,copy', miri_steps=(260, 2500), vg=True, asa
                      vg=(8, 150_000, {'map': raw, 'set': raw}) if vg else None)
 
 
-def _simple_hist(prop, tier, fam='track,copy', engines=('map', 'set'), miri=None):
+def _simple_hist(prop, tier, fam='track,copy', engines=('map', 'set'), miri=None, asan=True):
     a = '--fam ' + fam + (' --caps ' + ALLCAPS if tier == 'thorough' else '')
+    raw = '--fam raw --caps 0,1,2,3,4,8 --no-forget'
     mm = None
     if miri:
         m = '--fam track --caps 0,1,2,3,4 --max-steps 48'
         mm = (16, miri[0], miri[1], {'map': m, 'set': m})
         if tier == 'quick' and not miri[2]:
             mm = None
-    return hist_jobs(prop, tier, a, a, engines=engines, miri=mm)
+    # thorough: the same histories on heap-owning String / Box elements under AddressSanitizer (a read of a
+    # destroyed or never-written slot is a real use-after-free / wild read there, whatever the monitors see)
+    return hist_jobs(prop, tier, a, a, engines=engines, miri=mm, asan=(8, 2_000_000, {'map': raw, 'set': raw}) if asan else None)
 
 
 PLANS = {}
